@@ -138,11 +138,11 @@ def is_rlimit(d):
 def scan_trusted(gen_lines, origin):
     """Mechanical scan for assumptions in the generated file."""
     out = []
-    pat = re.compile(r"external_body|assume_specification|\baxiom\s+fn\b|\badmit\s*\(|\bassume\s*\(|"
+    pat = re.compile(r"ASSUMED|external_body|assume_specification|\baxiom\s+fn\b|\badmit\s*\(|\bassume\s*\(|"
                      r"external_fn_specification|external_type_specification|\bexternal\b")
     for i, line in enumerate(gen_lines):
         code = line.split("//")[0]
-        m = pat.search(code)
+        m = pat.search(code) or re.search(r"ASSUMED", line)
         if not m:
             continue
         ctx = line.strip()
